@@ -28,6 +28,9 @@ func deviationsAt(sc *dscenario, rec sim.Rec) []string {
 		return l
 	}
 	l := []string{sim.DevError, sim.DevGarbage, sim.DevStall, sim.DevClose}
+	if rec.Class == sim.ClChange {
+		l = append(l, sim.DevError1)
+	}
 	if rec.Class == sim.ClSave {
 		l = append(l, sim.DevNoOK)
 	}
